@@ -5,6 +5,7 @@ import FgaVerif.Proofs.WAssignCycle
 import FgaVerif.Proofs.WGraphDst
 import FgaVerif.Proofs.WAssignPost
 import FgaVerif.Proofs.WAssignSound
+import FgaVerif.Proofs.WAssignErr
 /-! # C05 — a model is accepted iff it is well-founded (specification side)
 
     As for C04, `Spec/Weights.lean` is a specification the real verdict is compared with under every
@@ -65,8 +66,19 @@ import FgaVerif.Proofs.WAssignSound
       edges (`algorithm_accepted_intersections_have_common_type`), (4) every relation reaches a terminal node by a
       path of the graph (`algorithm_accepted_relations_reach_a_terminal_type`).
 
-    Not proved: that the port's verdict equals the specification's in general (the completeness half: every
-    well-founded graph is accepted by the port). -/
+    * `algorithm_rejects_only_ill_founded`, `algorithm_accepts_iff_well_founded` — the **completeness half for the port:
+      every error it returns is justified, so every well-founded graph is accepted**, for every start order
+      (`Proofs/WAssignErr.lean`, a seventh pass over the runs that end in an error; hygiene of the graph — `noPHTypesB`,
+      `rclosedB`, `srcOKB`: an edge is stored under its source, `hopOKB`: a direct edge does not end in an operator — is
+      decidable and true of built graphs).  Per error class: `algorithm_model_cycle_is_justified` (a cycle of
+      rewrite/computed edges exists — or, a **finding**, the target of an edge is an exclusion with a single edge or an
+      operator with an unknown label, which never gets a weight: `oneEdgeExclusion`),
+      `algorithm_invalid_model_is_justified` (some relation/operator node is reached by no terminal type: `HasT` fails
+      for every type), `algorithm_tuple_cycle_is_justified` (an operator other than a union lies on a cycle of the graph;
+      the test for unresolved references after the top-level call is dead code: `algorithm_top_level_check_never_fires`),
+      `algorithm_fuel_suffices` (the fuel of the port never runs out, unconditionally).
+
+    Not proved: that the port's verdict equals the specification's (`Spec/Weights.lean`) in general. -/
 namespace FgaVerif.Props.C05
 open FgaVerif.Spec.Weights
 
@@ -467,5 +479,210 @@ example : (allOrders ["doc#a", "doc#b", "union:0"]).all (fun o => verdict cycG o
     verdict nowhere [] = some .invalidModel ∧ verdict nowhere ["doc#a"] = some .invalidModel := by decide +kernel
 
 end soundness
+
+/-! ### the algorithm (port of `AssignWeights`) rejects only graphs that are not well-founded -/
+section completeness
+open FgaVerif.Model.WGraph FgaVerif.Model.WAssign
+
+theorem verdict_error {g : G} {o : List String} {e : AErr} (h : verdict g o = some e) : assignWeights g o = .error e := by
+  unfold verdict at h
+  split at h
+  · cases h
+  · rename_i e' heq
+    cases h
+    exact heq
+
+/-- 1. **the model-cycle error is justified**: if the port returns it, a cycle of rewrite/computed edges exists (then the
+    pre-pass raised it: `algorithm_prepass_sound`) — or (raised by `calculateEdgeWeight`: the target of an edge came back
+    without weights and no tuple hop leads back to it) the graph contains an exclusion with fewer than two edges or an
+    operator with an unknown label, a node that never gets a weight (`BadOp`; see `oneEdgeExclusion` below).  On a graph
+    all of whose operators are unions, intersections and two-edged exclusions (`allGoodB`) the error is raised exactly
+    for a cycle of rewrite/computed edges. -/
+theorem algorithm_model_cycle_is_justified (g : G) (hn : noPHTypesB g = true) (hcl : rclosedB g = true)
+    (hsrc : srcOKB g = true) (hhop : hopOKB g = true) (order : List String)
+    (h : assignWeights g order = .error .modelCycle) :
+    (∃ x, RPath g x x) ∨ ∃ v, isTerminal (nodeType g v) = false ∧ ¬ GoodNode g v :=
+  assignWeights_error_justified g (noPHTypesB_sound g hn) (rclosedB_sound g hcl) (srcOKB_edges g hsrc)
+    (hopOKB_sound g hhop) order .modelCycle h
+
+theorem algorithm_model_cycle_iff (g : G) (hn : noPHTypesB g = true) (hcl : rclosedB g = true)
+    (hsrc : srcOKB g = true) (hhop : hopOKB g = true) (hgood : allGoodB g = true) (order : List String) :
+    assignWeights g order = .error .modelCycle ↔ ∃ x, RPath g x x := by
+  constructor
+  · intro h
+    rcases algorithm_model_cycle_is_justified g hn hcl hsrc hhop order h with hx | ⟨v, hv, hb⟩
+    · exact hx
+    · exact absurd (allGoodB_sound g hgood v hv) hb
+  · rintro ⟨x, hx⟩
+    obtain ⟨z, hz⟩ := hx.last
+    obtain ⟨nd, hnd, rfl⟩ := List.mem_map.1 (rclosedB_sound g hcl z x hz)
+    exact rewrite_cycle_rejected g nd hnd hx order
+
+/-- 2. **the invalid-model error is justified**: if the port returns it, some relation or operator node of the graph is
+    reached by no terminal type at all — `HasT g v T` (through some edge of a relation or union, through every edge of
+    an intersection, through a base edge of an exclusion) fails for every `T`: a relation that reaches no terminal
+    type, an intersection without a type common to all its edges, an exclusion whose base reaches nothing, a node
+    without edges. -/
+theorem algorithm_invalid_model_is_justified (g : G) (hn : noPHTypesB g = true) (hcl : rclosedB g = true)
+    (hsrc : srcOKB g = true) (hhop : hopOKB g = true) (order : List String)
+    (h : assignWeights g order = .error .invalidModel) :
+    ∃ v, isTerminal (nodeType g v) = false ∧ ∀ T, ¬ HasT g v T :=
+  assignWeights_error_justified g (noPHTypesB_sound g hn) (rclosedB_sound g hcl) (srcOKB_edges g hsrc)
+    (hopOKB_sound g hhop) order .invalidModel h
+
+/-- 3. **the tuple-cycle error is justified**: if the port returns it, an intersection, an exclusion (or an operator
+    with any label other than `union`) lies on a cycle of the graph -/
+theorem algorithm_tuple_cycle_is_justified (g : G) (hn : noPHTypesB g = true) (hcl : rclosedB g = true)
+    (hsrc : srcOKB g = true) (hhop : hopOKB g = true) (order : List String)
+    (h : assignWeights g order = .error .tupleCycle) : ∃ v, isMaxNode g v = false ∧ Conn g v v :=
+  assignWeights_error_justified g (noPHTypesB_sound g hn) (rclosedB_sound g hcl) (srcOKB_edges g hsrc)
+    (hopOKB_sound g hhop) order .tupleCycle h
+
+/-- … and the other source of that error, the test `len(tupleCycles) > 0` after each top-level call of
+    `calculateNodeWeight`, **never fires**: the port equals the port without the test (the references that come back
+    only name nodes whose visit is in progress, and at top level there are none) -/
+theorem algorithm_top_level_check_never_fires (g : G) (hn : noPHTypesB g = true) (hsrc : srcOKB g = true)
+    (hhop : hopOKB g = true) (order : List String) : assignWeights g order = assignWeightsNoTopCheck g order :=
+  assignWeights_eq_noTopCheck g (noPHTypesB_sound g hn) (srcOKB_edges g hsrc) (hopOKB_sound g hhop) order
+
+/-- 4. **the fuel of the port never runs out**, for every graph and every start order (no hypothesis): the nested calls
+    of `calculateNodeWeight` are made for distinct nodes of the graph, and the fuel is their number plus one -/
+theorem algorithm_fuel_suffices (g : G) (order : List String) : assignWeights g order ≠ .error .fuel :=
+  assignWeights_fuel_suffices g order
+
+/-- 5. **the port rejects only graphs that are not well-founded**: whatever error it returns (out of fuel is impossible:
+    `algorithm_fuel_suffices`), for whatever start order, one of the clauses of `algorithm_accepts_only_well_founded`
+    is violated — first: a node of the graph lies on a cycle of rewrite/computed edges; second: an operator of the graph
+    other than a union lies on a cycle; third and fourth, in their semantic form (an intersection without a common
+    type, a relation that reaches no terminal type, …): a relation/operator node of the graph is reached by no terminal
+    type. -/
+theorem algorithm_rejects_only_ill_founded (g : G) (hn : noPHTypesB g = true) (hcl : rclosedB g = true)
+    (hsrc : srcOKB g = true) (hhop : hopOKB g = true) (order : List String) (e : AErr)
+    (h : assignWeights g order = .error e) :
+    (∃ n ∈ g.nodes, RPath g n.uniqueLabel n.uniqueLabel) ∨
+    (∃ n ∈ g.nodes, nodeType g n.uniqueLabel = .operator ∧ nodeLabel g n.uniqueLabel ≠ "union" ∧
+      Conn g n.uniqueLabel n.uniqueLabel) ∨
+    (∃ n ∈ g.nodes, isTerminal (nodeType g n.uniqueLabel) = false ∧ ∀ T, ¬ HasT g n.uniqueLabel T) :=
+  rejected_ill_founded g (noPHTypesB_sound g hn) (rclosedB_sound g hcl) (srcOKB_edges g hsrc) (hopOKB_sound g hhop) order e h
+
+/-- the same, against the predicate `WellFoundedG` (no cycle of rewrite/computed edges, no operator other than a union
+    on a cycle, every relation/operator node reached by some terminal type) -/
+theorem algorithm_rejected_not_well_founded (g : G) (hn : noPHTypesB g = true) (hcl : rclosedB g = true)
+    (hsrc : srcOKB g = true) (hhop : hopOKB g = true) (order : List String) (e : AErr)
+    (h : assignWeights g order = .error e) : ¬ WellFoundedG g :=
+  not_wellFounded_of_just (fun he => assignWeights_fuel_suffices g order (he ▸ h))
+    (assignWeights_error_justified g (noPHTypesB_sound g hn) (rclosedB_sound g hcl) (srcOKB_edges g hsrc)
+      (hopOKB_sound g hhop) order e h)
+
+/-- **accepted iff well-founded, for the port and every start order** (on a graph whose operators are unions,
+    intersections and two-edged exclusions: `allGoodB`; without it "accepted ⇒ well-founded" holds for those nodes
+    only, `algorithm_accepts_only_well_founded`).  In particular the verdict does not depend on the start order. -/
+theorem algorithm_accepts_iff_well_founded (g : G) (hn : noPHTypesB g = true) (hcl : rclosedB g = true)
+    (hsrc : srcOKB g = true) (hhop : hopOKB g = true) (hgood : allGoodB g = true) (order : List String) :
+    (∃ st, assignWeights g order = .ok st) ↔ WellFoundedG g :=
+  accepted_iff_wellFoundedG g (noPHTypesB_sound g hn) (rclosedB_sound g hcl) (srcOKB_edges g hsrc) (hopOKB_sound g hhop)
+    (allGoodB_sound g hgood) order
+
+theorem algorithm_verdict_order_independent (g : G) (hn : noPHTypesB g = true) (hcl : rclosedB g = true)
+    (hsrc : srcOKB g = true) (hhop : hopOKB g = true) (hgood : allGoodB g = true) (o1 o2 : List String) :
+    (∃ st, assignWeights g o1 = .ok st) ↔ (∃ st, assignWeights g o2 = .ok st) :=
+  (algorithm_accepts_iff_well_founded g hn hcl hsrc hhop hgood o1).trans
+    (algorithm_accepts_iff_well_founded g hn hcl hsrc hhop hgood o2).symm
+
+/-! non-vacuity: the hygiene hypotheses hold on the example graphs, each error class occurs, and the theorems yield the
+    witnesses -/
+example : [cycG, interCycle, exclCycle, interNoCommon, nowhere, soundDemo].all
+    (fun g => noPHTypesB g && rclosedB g && srcOKB g && hopOKB g && allGoodB g) = true := by decide +kernel
+
+/-- `cycG`: the model-cycle error, and the cycle it is justified by -/
+example : ∃ x, RPath cycG x x :=
+  (algorithm_model_cycle_iff cycG (by decide +kernel) (by decide +kernel) (by decide +kernel) (by decide +kernel)
+    (by decide +kernel) ["union:0"]).1 (verdict_error (by decide +kernel))
+
+/-- `interCycle`, `exclCycle`: the tuple-cycle error; the theorem yields an operator on a cycle -/
+example : ∃ v, isMaxNode interCycle v = false ∧ Conn interCycle v v :=
+  algorithm_tuple_cycle_is_justified interCycle (by decide +kernel) (by decide +kernel) (by decide +kernel)
+    (by decide +kernel) ["doc#b"] (verdict_error (by decide +kernel))
+example : ∃ v, isMaxNode exclCycle v = false ∧ Conn exclCycle v v :=
+  algorithm_tuple_cycle_is_justified exclCycle (by decide +kernel) (by decide +kernel) (by decide +kernel)
+    (by decide +kernel) [] (verdict_error (by decide +kernel))
+
+/-- `interNoCommon`, `nowhere`: the invalid-model error; the theorem yields a node that no terminal type reaches -/
+example : ∃ v, isTerminal (nodeType interNoCommon v) = false ∧ ∀ T, ¬ HasT interNoCommon v T :=
+  algorithm_invalid_model_is_justified interNoCommon (by decide +kernel) (by decide +kernel) (by decide +kernel)
+    (by decide +kernel) [] (verdict_error (by decide +kernel))
+example : ∃ v, isTerminal (nodeType nowhere v) = false ∧ ∀ T, ¬ HasT nowhere v T :=
+  algorithm_invalid_model_is_justified nowhere (by decide +kernel) (by decide +kernel) (by decide +kernel)
+    (by decide +kernel) ["doc#a"] (verdict_error (by decide +kernel))
+
+/-- `soundDemo` is accepted, hence well-founded; the rejected examples are not -/
+example : WellFoundedG soundDemo :=
+  (algorithm_accepts_iff_well_founded soundDemo (by decide +kernel) (by decide +kernel) (by decide +kernel)
+    (by decide +kernel) (by decide +kernel) []).1
+    (by cases h : assignWeights soundDemo [] with
+        | ok st => exact ⟨st, rfl⟩
+        | error e => exact absurd (show verdict soundDemo [] = none by decide +kernel) (by unfold verdict; rw [h]; simp))
+example : ¬ WellFoundedG interNoCommon :=
+  algorithm_rejected_not_well_founded interNoCommon (by decide +kernel) (by decide +kernel) (by decide +kernel)
+    (by decide +kernel) [] .invalidModel (verdict_error (by decide +kernel))
+
+/-- **Finding** (the model-cycle error is also raised without any cycle).  `define a: [user] but not [user]` in the JSON
+    form (`difference {base: this, subtract: this}`): `UpsertEdge` merges the two identical direct edges, the exclusion
+    has a single edge, the mixed strategy skips the last (= only) edge, the exclusion gets an empty weight map without
+    an error, and `calculateEdgeWeight` of `doc#a → exclusion` reports a *model cycle* — for every start order — although
+    the graph has no cycle of any kind.  (The graph is not well-founded in the sense of `HasT` — an exclusion with one
+    edge has no base edge — so the rejection is covered by `algorithm_rejects_only_ill_founded`; only the class of the
+    error is off, and `allGoodB` fails.)  The same happens for `define a: [] but not b` (empty restriction list). -/
+def thisButNotThis : FgaVerif.Model.Model := { schema := "1.1", types := [
+  { name := "user" },
+  { name := "doc", relations := [("a", .diff .this .this)],
+    md := some { relations := [("a", { restr := [{ type := "user" }] })] } }] }
+def oneEdgeExclusion : G := {
+  nodes := [⟨"doc", "doc", .specificType⟩, ⟨"doc#a", "doc#a", .typeAndRelation⟩,
+            ⟨"exclusion:0", "exclusion", .operator⟩, ⟨"user", "user", .specificType⟩],
+  edges := [("doc#a", [⟨"doc#a", "exclusion:0", .rewrite, "", ["none"]⟩]),
+            ("exclusion:0", [⟨"exclusion:0", "user", .direct, "", ["none"]⟩])],
+  opCount := 1 }
+example : (match build thisButNotThis with | .ok g => g == oneEdgeExclusion | .error _ => false) = true := by
+  decide +kernel
+example : noPHTypesB oneEdgeExclusion = true ∧ rclosedB oneEdgeExclusion = true ∧ srcOKB oneEdgeExclusion = true ∧
+    hopOKB oneEdgeExclusion = true ∧ allGoodB oneEdgeExclusion = false ∧ hasRewriteOnlyCycle oneEdgeExclusion = false ∧
+    (allOrders ["doc#a", "exclusion:0"]).all (fun o => verdict oneEdgeExclusion o == some .modelCycle) = true := by
+  decide +kernel
+/-- … and there is no cycle of rewrite/computed edges in it: the first alternative of
+    `algorithm_model_cycle_is_justified` fails, the second holds -/
+example : ¬ ∃ x, RPath oneEdgeExclusion x x := by
+  rintro ⟨x, hx⟩
+  obtain ⟨z, hz⟩ := hx.last
+  obtain ⟨nd, hnd, rfl⟩ := List.mem_map.1 (rclosedB_sound oneEdgeExclusion (by decide +kernel) z x hz)
+  exact no_cycle_of_prepass oneEdgeExclusion (by decide +kernel) nd hnd hx
+example : ∃ v, isTerminal (nodeType oneEdgeExclusion v) = false ∧ ¬ GoodNode oneEdgeExclusion v :=
+  (algorithm_model_cycle_is_justified oneEdgeExclusion (by decide +kernel) (by decide +kernel) (by decide +kernel)
+    (by decide +kernel) [] (verdict_error (by decide +kernel))).resolve_left (by
+      rintro ⟨x, hx⟩
+      obtain ⟨z, hz⟩ := hx.last
+      obtain ⟨nd, hnd, rfl⟩ := List.mem_map.1 (rclosedB_sound oneEdgeExclusion (by decide +kernel) z x hz)
+      exact no_cycle_of_prepass oneEdgeExclusion (by decide +kernel) nd hnd hx)
+
+/-- the hygiene hypotheses are needed.  A self-loop test on the `src` field of an edge stored under another node
+    (`srcOKB` fails): the tuple-cycle error without any operator in the graph. -/
+def wrongSrc : G := {
+  nodes := [⟨"doc#r0", "doc#r0", .typeAndRelation⟩, ⟨"doc#r1", "doc#r1", .typeAndRelation⟩],
+  edges := [("doc#r1", [⟨"doc#r0", "doc#r0", .rewrite, "", ["none"]⟩])] }
+example : srcOKB wrongSrc = false ∧ verdict wrongSrc ["doc#r1", "doc#r0"] = some .tupleCycle ∧
+    wrongSrc.nodes.all (fun n => isMaxNode wrongSrc n.uniqueLabel) = true := by decide +kernel
+
+/-- a direct edge into an operator (`hopOKB` fails; the builder never makes one): `isTupleCycle` does not count it as a
+    tuple hop, and the cycle `doc#a → union → doc#a`, which is not a cycle of rewrite/computed edges, is reported as a
+    model cycle -/
+def directToOp : G := {
+  nodes := [⟨"doc#a", "doc#a", .typeAndRelation⟩, ⟨"union:0", "union", .operator⟩, ⟨"user", "user", .specificType⟩],
+  edges := [("doc#a", [⟨"doc#a", "union:0", .direct, "", ["none"]⟩]),
+            ("union:0", [⟨"union:0", "doc#a", .rewrite, "", ["none"]⟩, ⟨"union:0", "user", .direct, "", ["none"]⟩])] }
+example : hopOKB directToOp = false ∧ srcOKB directToOp = true ∧ rclosedB directToOp = true ∧ allGoodB directToOp = true ∧
+    hasRewriteOnlyCycle directToOp = false ∧
+    (allOrders ["doc#a", "union:0"]).all (fun o => verdict directToOp o == some .modelCycle) = true := by decide +kernel
+
+end completeness
 
 end FgaVerif.Props.C05
